@@ -50,12 +50,15 @@ EXTENDS Integers, Sequences, FiniteSets, TLC, Util
 CONSTANTS N,            \* number of block producers; BP = 0..N-1
           Byz,          \* Byzantine producers (subset of BP)
           Nodes,        \* full nodes that are modelled: correct producers and/or observers (ids >= N)
-          Blk0,         \* initial block table (a scripted block tree; <<>> = only genesis)
+          Blk0s,        \* set of initial block tables (scripted block trees; {<<>>} = only genesis); one is picked in Init
           MaxBlocks,    \* bound on Len(blk)
           MaxRestarts,  \* bound on the number of restarts
           ByzMode,      \* "branch" = a Byzantine producer equivocates but fills Confirms the honest way on every branch;
                         \* "any"    = it also chooses Confirms freely from ByzRanges
           ByzRanges,    \* Confirms values available in mode "any"
+          Runs,         \* TRUE: a run of blocks may also arrive children first (orphan pool): action DeliverRun
+          BadKinds,     \* what a Byzantine producer's block may be: subset of {"ok", "exec", "pre"} (executes / fails inside
+                        \* execute() / fails before execution); scripted trees mark invalid blocks themselves
           Fixes         \* repairs contained in the model: subset of {"attach", "stale", "mono"} (see the header);
                         \* all three = the code as it is now, {} = the code before the repairs
 
@@ -96,7 +99,7 @@ LastOwnNo(B, b, p) == IF b = 0 THEN 0 ELSE IF B[b].bp = p THEN B[b].no ELSE Last
 
 \* ---------------------------------------------------------------- libStatus (lib.go), S = [cf, pr, lib, lpb]
 EmptyPr == [p \in BP |-> NoPl]
-Fresh   == [cf |-> <<>>, pr |-> EmptyPr, lib |-> 0, lpb |-> 0]
+Fresh   == [cf |-> <<>>, pr |-> EmptyPr, lib |-> 0, lpb |-> 0, sb |-> 0]
 
 \* addConfirmInfo
 AddCI(B, S, b, self) ==
@@ -153,7 +156,7 @@ AppendBlock(B, S, b, self) == {Gc(B, T) : T \in UpdateSt(B, AddCI(B, S, b, self)
 
 \* loadPlibStatus: a scratch status over the main-chain blocks beg..end (no LIB assignment, no gc)
 TmpStep(B, T, b) ==
-  LET T1 == AddCI(B, [cf |-> T.cf, pr |-> T.pr, lib |-> 0, lpb |-> 0], b, NoPl)
+  LET T1 == AddCI(B, [cf |-> T.cf, pr |-> T.pr, lib |-> 0, lpb |-> 0, sb |-> 0], b, NoPl)
       w  == PreLIB(T1.cf)
   IN [cf |-> w.cf,
       pr |-> IF w.hit = 0 THEN T1.pr ELSE [T1.pr EXCEPT ![T1.cf[Len(T1.cf)].bp] = w.cf[w.hit].id]]
@@ -173,45 +176,71 @@ Load(B, S1, tip, end) ==
      ELSE LET libNo == No(B, S.lib)
               m     == IF end < libNo THEN libNo ELSE end
               beg   == IF m > Lim THEN m - Lim ELSE 1
-          IN IF beg >= end THEN [S EXCEPT !.cf = <<>>]
+          IN IF beg >= end \/ end > No(B, tip) THEN [S EXCEPT !.cf = <<>>]   \* nil: nothing to rebuild / GetBlockByNo fails
              ELSE LET T == TmpFold(B, tip, [cf |-> <<>>, pr |-> EmptyPr], beg, end)
                   IN [S EXCEPT !.cf = T.cf,
                                !.pr = [p \in BP |-> IF T.pr[p] # NoPl /\ No(B, T.pr[p]) > 0 THEN T.pr[p] ELSE @[p]]]
 
-\* Status.Update, rollback branch (target = the branch root r)
-RollbackTo(B, S, tip, r) == Gc(B, Load(B, S, tip, No(B, r)))
+\* Status.Update, rollback branch (target = the given block; the window is read from the height index = chain of `tip`)
+RollbackTo(B, S, tip, r) == [Gc(B, Load(B, S, tip, No(B, r))) EXCEPT !.sb = r]
 
-\* rollforward: Update(x) for every block of the new branch
-RECURSIVE AppendAll(_, _, _, _, _)
-AppendAll(B, Ss, path, k, self) ==
-  IF k > Len(path) THEN Ss
-  ELSE AppendAll(B, UNION {AppendBlock(B, S, path[k], self) : S \in Ss}, path, k + 1, self)
+\* Status.Update(x): "connected" iff the status' best block is x's parent (compared by id), else "rollback"
+UpdateOp(B, S, x, tip, self) ==
+  IF x # 0 /\ S.sb = Par(B, x) THEN {[T EXCEPT !.sb = x] : T \in AppendBlock(B, S, x, self)}
+  ELSE {RollbackTo(B, S, tip, x)}
 
-StOf(n) == [cf |-> n.cf, pr |-> n.pr, lib |-> n.lib, lpb |-> n.lpb]
-WithSt(n, S) == [n EXCEPT !.cf = S.cf, !.pr = S.pr, !.lib = S.lib, !.lpb = S.lpb]
+\* rollforward: executeBlock -> Update(x) for the blocks path[k..upto] of the new branch
+RECURSIVE AppendAll(_, _, _, _, _, _, _)
+AppendAll(B, Ss, path, k, upto, tip, self) ==
+  IF k > upto THEN Ss
+  ELSE AppendAll(B, UNION {UpdateOp(B, S, path[k], tip, self) : S \in Ss}, path, k + 1, upto, tip, self)
+
+StOf(n) == [cf |-> n.cf, pr |-> n.pr, lib |-> n.lib, lpb |-> n.lpb, sb |-> n.sb]
+WithSt(n, S) == [n EXCEPT !.cf = S.cf, !.pr = S.pr, !.lib = S.lib, !.lpb = S.lpb, !.sb = S.sb]
 
 \* the LIB number the veto and the timestamp check see (0 while the status is not attached)
 EffLib(B, n) == IF n.ld THEN No(B, n.lib) ELSE 0
 
+\* first position of a block of `path` that does not execute (0 = all fine)
+RECURSIVE FirstBad(_, _, _)
+FirstBad(B, path, k) == IF k > Len(path) THEN 0 ELSE IF B[path[k]].bad # "ok" THEN k ELSE FirstBad(B, path, k + 1)
+
 \* ---------------------------------------------------------------- the chain service handling one block
-\* results: the set of [n |-> new node record, res |-> outcome]
+\* results: the set of [n |-> new node record, res |-> outcome].  A block is "ok", or fails inside execute() ("exec":
+\* wrong state/receipts root, failing transaction; executeBlock then calls Update(best block of the chain DB)), or fails
+\* before execution ("pre": ValidateBlock / IsBlockValid; no Update call).  A block that fails as the child of the best
+\* block is not stored; a side-branch block is stored unexecuted and fails when a reorganisation rolls forward over it:
+\* rollback to the branch root, Update for the valid prefix, then ("exec") Update(old best block), which is a rollback
+\* to the old best block over the unchanged height index.
 Handle(B, n, b, self) ==
   IF No(B, b) <= EffLib(B, n) THEN {[n |-> n, res |-> "refused"]}                       \* VerifyTimestamp
   ELSE IF Par(B, b) = n.best
-  THEN {[n |-> [WithSt(n, S) EXCEPT !.best = b, !.known = @ \cup {b}, !.ld = TRUE], res |-> "connected"] :
-            S \in AppendBlock(B, StOf(n), b, self)}
+  THEN IF B[b].bad = "ok"
+       THEN {[n |-> [WithSt(n, S) EXCEPT !.best = b, !.known = @ \cup {b}, !.ld = TRUE], res |-> "connected"] :
+                S \in UpdateOp(B, StOf(n), b, n.best, self)}
+       ELSE IF B[b].bad = "pre" THEN {[n |-> n, res |-> "invalid"]}
+       ELSE {[n |-> [WithSt(n, S) EXCEPT !.ld = TRUE], res |-> "invalid"] : S \in UpdateOp(B, StOf(n), n.best, n.best, self)}
   ELSE LET n1 == [n EXCEPT !.known = @ \cup {b}]                                         \* side branch: stored
        IN IF No(B, b) <= No(B, n.best) THEN {[n |-> n1, res |-> "side"]}
-          ELSE LET r == ComAnc(B, n.best, b)
+          ELSE LET r    == ComAnc(B, n.best, b)
+                   path == Path(B, r, b)
+                   k    == FirstBad(B, path, 1)
+                   Rb   == UpdateOp(B, StOf(n), r, n.best, self)                           \* reorg.rollback(): Update(r)
                IN IF ~(No(B, r) >= EffLib(B, n)) THEN {[n |-> n1, res |-> "vetoed"]}       \* NeedReorganization
-                  ELSE {[n |-> [WithSt(n1, S) EXCEPT !.best = b, !.ld = TRUE], res |-> "reorg"] :
-                           S \in AppendAll(B, {RollbackTo(B, StOf(n), n.best, r)}, Path(B, r, b), 1, self)}
+                  ELSE IF k = 0
+                  THEN {[n |-> [WithSt(n1, S) EXCEPT !.best = b, !.ld = TRUE], res |-> "reorg"] :
+                           S \in AppendAll(B, Rb, path, 1, Len(path), n.best, self)}
+                  ELSE LET Pre == AppendAll(B, Rb, path, 1, k - 1, n.best, self)              \* the valid prefix
+                       IN IF B[path[k]].bad = "pre"
+                          THEN {[n |-> [WithSt(n1, S) EXCEPT !.ld = TRUE], res |-> "reorg-failed"] : S \in Pre}
+                          ELSE {[n |-> [WithSt(n1, S) EXCEPT !.ld = TRUE], res |-> "reorg-failed"] :
+                                   S \in UNION {UpdateOp(B, P, n.best, n.best, self) : P \in Pre}}
 
 \* ---------------------------------------------------------------- actions
-InitNode == [best |-> 0, known |-> {}, cf |-> <<>>, pr |-> EmptyPr, lib |-> 0, lpb |-> 0, bfl |-> 0, ld |-> TRUE]
+InitNode == [best |-> 0, known |-> {}, cf |-> <<>>, pr |-> EmptyPr, lib |-> 0, lpb |-> 0, bfl |-> 0, ld |-> TRUE, sb |-> 0]
 
 Init ==
-  /\ blk = Blk0
+  /\ blk \in Blk0s
   /\ node = [i \in Nodes |-> InitNode]
   /\ restarts = 0
   /\ lastAct = [name |-> "Init"]
@@ -223,7 +252,7 @@ Produce(p) ==
   /\ LET n  == node[p]
          no == No(blk, n.best) + 1
          b  == Len(blk) + 1
-         B  == Append(blk, [parent |-> n.best, no |-> no, bp |-> p, conf |-> no - n.bfl])
+         B  == Append(blk, [parent |-> n.best, no |-> no, bp |-> p, conf |-> no - n.bfl, bad |-> "ok"])
      IN /\ no > n.bfl
         /\ \E h \in Handle(B, n, b, p) :
              /\ h.res = "connected"
@@ -239,13 +268,14 @@ ByzConfs(p, par) ==
   IN IF ByzMode = "any" THEN {c \in ByzRanges : c <= no + 1}
      ELSE {no - LastOwnNo(blk, par, p)}
 
-ByzProduce(p, par, c) ==
+ByzProduce(p, par, c, bd) ==
   /\ p \in Byz
   /\ Len(blk) < MaxBlocks
   /\ par \in 0 .. Len(blk)
   /\ c \in ByzConfs(p, par)
-  /\ ~\E x \in 1 .. Len(blk) : blk[x].parent = par /\ blk[x].bp = p /\ blk[x].conf = c
-  /\ blk' = Append(blk, [parent |-> par, no |-> No(blk, par) + 1, bp |-> p, conf |-> c])
+  /\ bd \in BadKinds
+  /\ ~\E x \in 1 .. Len(blk) : blk[x].parent = par /\ blk[x].bp = p /\ blk[x].conf = c /\ blk[x].bad = bd
+  /\ blk' = Append(blk, [parent |-> par, no |-> No(blk, par) + 1, bp |-> p, conf |-> c, bad |-> bd])
   /\ lastAct' = [name |-> "ByzProduce", node |-> p, b |-> Len(blk) + 1, res |-> "created"]
   /\ UNCHANGED <<node, restarts>>
 
@@ -259,6 +289,33 @@ Deliver(i, b) ==
        /\ lastAct' = [name |-> "Deliver", node |-> i, b |-> b, res |-> h.res]
   /\ UNCHANGED <<blk, restarts>>
 
+\* a run a..b of blocks (b a descendant of a, at least two blocks, none stored yet, a's parent stored) arrives CHILDREN
+\* FIRST: the descendants wait in the orphan pool; when a arrives the chain processor handles a and then, one after the
+\* other, the orphans depending on it.  If a extends the best block every block is executed and connected in turn (the
+\* run ends at the first block that fails; the rest stays in the orphan pool, never to be resolved).  Otherwise all of
+\* them are stored as side-branch blocks and ONE reorganisation to b is attempted at the end.
+RECURSIVE MainRun(_, _, _, _, _)
+MainRun(B, Ns, path, k, self) ==        \* Ns: set of node records
+  IF k > Len(path) THEN {[n |-> n, res |-> "connected"] : n \in Ns}
+  ELSE UNION {LET H == Handle(B, n, path[k], self)
+              IN UNION {IF h.res = "connected" THEN MainRun(B, {h.n}, path, k + 1, self) ELSE {h} : h \in H} : n \in Ns}
+
+DeliverRun(i, a, b) ==
+  /\ Runs
+  /\ a \in 1 .. Len(blk) /\ b \in 1 .. Len(blk)
+  /\ No(blk, b) > No(blk, a) /\ IsAnc(blk, a, b)
+  /\ Par(blk, a) = 0 \/ Par(blk, a) \in node[i].known
+  /\ LET n    == node[i]
+         path == Path(blk, Par(blk, a), b)
+     IN /\ \A k \in 1 .. Len(path) : path[k] \notin n.known
+        /\ No(blk, a) > EffLib(blk, n)
+        /\ \E h \in (IF Par(blk, a) = n.best
+                      THEN MainRun(blk, {n}, path, 1, i)
+                      ELSE Handle(blk, [n EXCEPT !.known = @ \cup {path[k] : k \in 1 .. (Len(path) - 1)}], b, i)) :
+              /\ node' = [node EXCEPT ![i] = h.n]
+              /\ lastAct' = [name |-> "DeliverRun", node |-> i, b |-> b, a |-> a, res |-> h.res]
+  /\ UNCHANGED <<blk, restarts>>
+
 \* stop and start on the same stores: NewStatus -> bootLoader.load (decode the saved status, load(best.no));
 \* the block factory worker starts from the restored LpbNo; the status is attached at once ("attach")
 Restart(i) ==
@@ -266,15 +323,16 @@ Restart(i) ==
   /\ node[i].best # 0
   /\ LET n == node[i]
          S == Load(blk, StOf(n), n.best, No(blk, n.best))
-     IN node' = [node EXCEPT ![i] = [WithSt(n, S) EXCEPT !.bfl = S.lpb, !.ld = ("attach" \in Fixes)]]
+     IN node' = [node EXCEPT ![i] = [WithSt(n, S) EXCEPT !.bfl = S.lpb, !.ld = ("attach" \in Fixes), !.sb = n.best]]
   /\ restarts' = restarts + 1
   /\ lastAct' = [name |-> "Restart", node |-> i, b |-> 0, res |-> "restarted"]
   /\ UNCHANGED blk
 
 Next ==
   \/ \E p \in Nodes : Produce(p)
-  \/ \E p \in Byz : \E par \in 0 .. Len(blk) : \E c \in 0 .. (MaxBlocks + 1) : ByzProduce(p, par, c)
+  \/ \E p \in Byz : \E par \in 0 .. Len(blk) : \E c \in 0 .. (MaxBlocks + 1) : \E bd \in BadKinds : ByzProduce(p, par, c, bd)
   \/ \E i \in Nodes : \E b \in 1 .. Len(blk) : Deliver(i, b)
+  \/ \E i \in Nodes : \E a, b \in 1 .. Len(blk) : DeliverRun(i, a, b)
   \/ \E i \in Nodes : Restart(i)
 
 Spec == Init /\ [][Next]_vars
@@ -339,6 +397,23 @@ RestoreEqualsRecompute ==
 RestoreConfirms ==
   [][IsRestart => LET i == lastAct'.node
                   IN Trim(DropLE(node'[i].cf, No(blk, node[i].lib))) = node[i].cf]_vars
+
+\* every proposal is a block of the main chain
+ProposalsOnMain == \A i \in Nodes : \A p \in BP : node[i].pr[p] = NoPl \/ IsAnc(blk, node[i].pr[p], node[i].best)
+
+\* after a block that does not execute (as a child of the best block, or inside the roll-forward of a reorganisation
+\* that is then given up) the status is the one of the main chain: its best block is the chain's best block and the
+\* confirm list, the proposals and the LIB only name main-chain blocks
+AfterAbandonedReorgStatusMatchesMainChain ==
+  [][lastAct'.res \in {"reorg-failed", "invalid"} =>
+        LET n == node'[lastAct'.node]
+        IN /\ n.sb = n.best
+           /\ \A k \in 1 .. Len(n.cf) : IsAnc(blk', n.cf[k].id, n.best)
+           /\ \A p \in BP : n.pr[p] = NoPl \/ IsAnc(blk', n.pr[p], n.best)
+           /\ IsAnc(blk', n.lib, n.best)]_vars
+
+\* the status' best block is the chain's best block
+StatusBestIsBest == \A i \in Nodes : node[i].sb = node[i].best
 
 \* an honest producer never fills Confirms with less than 1 or more than its block number
 HonestConfirms == \A k \in 1 .. Len(blk) : blk[k].bp \in Correct => blk[k].conf >= 1 /\ blk[k].conf <= blk[k].no
